@@ -36,6 +36,10 @@ func toolPath(e *Env, kind, tool string) string { return e.Tree.Tool(kind, tool)
 func runInv(e *Env, root string, tool string, inv *procsim.Invocation) (*procsim.Outcome, error) {
 	i2 := *inv
 	i2.Binary = toolPath(e, inv.Kind, tool)
+	if tool == "worker-stock" {
+		// the library driver (bkl's public API behind a JSON request on stdin)
+		i2.Binary = e.Tree.Worker("stock")
+	}
 	if i2.Kind == "inst" && !e.Tree.Instrumented {
 		i2.Kind = "stock"
 	}
